@@ -50,4 +50,20 @@ mod tests {
         let r = block_on(schema.execute("{ nzusize(v: 18446744073709551615) }"));
         assert!(r.errors.is_empty(), "{:?}", r.errors);
     }
+
+    /// C14: a lone carriage return ends a line (GraphQL spec, LineTerminator).
+    #[test]
+    fn c14_lone_cr_ends_a_line() {
+        let doc = async_graphql::parser::parse_query("{\r  a\r\n b\n c}").unwrap();
+        let op = doc.operations.iter().next().unwrap().1;
+        let pos: Vec<(usize, usize)> = op
+            .node
+            .selection_set
+            .node
+            .items
+            .iter()
+            .map(|s| (s.pos.line, s.pos.column))
+            .collect();
+        assert_eq!(pos, vec![(2, 3), (3, 2), (4, 2)]);
+    }
 }
